@@ -212,3 +212,208 @@ Proof.
     + subst q. destruct p as [[p1 p2] p3], v as [[v1 v2] v3], h as [[h1 h2] h3].
       unfold vadd, vsub, vmul. apply pair3; ring.
 Qed.
+
+(* ---------------- RHP / HEX ---------------- *)
+Lemma rhp_pair_ok (v w : pt) :
+  Forall2 same_facet
+    [ (TP, plane_np RS w (vsum2 RS v w), 1%Z); (TP, plane_np RS w (vdiff RS v w), (-1)%Z) ]
+    [ plane_end v w; plane_opposite v w ].
+Proof.
+  tospec.
+  constructor; [|constructor; [|constructor]];
+    apply same_facet_plane with (c := 1); try lra; intros p;
+    unfold plane_end, plane_opposite;
+    rewrite ?dot_vsub_l, ?dot_vadd_l, ?dot_vsub_r, ?dot_vadd_r, ?dot_vsub_l;
+    rewrite (dot_comm p w), (dot_comm v w); cbn [IZR IPR]; ring.
+Qed.
+
+Lemma Forall2_app3 {A B} (P : A -> B -> Prop) l1 l2 l3 l4 m1 m2 m3 m4 :
+  Forall2 P l1 m1 -> Forall2 P l2 m2 -> Forall2 P l3 m3 -> Forall2 P l4 m4 ->
+  Forall2 P (l1 ++ l2 ++ l3 ++ l4) (m1 ++ m2 ++ m3 ++ m4).
+Proof. intros. repeat apply Forall2_app; assumption. Qed.
+
+(* fifteen entries: the three facet vectors are given *)
+Theorem rhp15_facets_ok (v h r s t : pt) :
+  exists es, rhp RS (pl v ++ pl h ++ pl r ++ pl s ++ pl t) = Ok es /\
+             Forall2 same_facet es (rhp_facets v h r s t).
+Proof.
+  open_body @rhp. rewrite (pl_nil t), v3_at0, v3_at3, v3_at6, v3_at9, v3_at12.
+  cbn [bind]. eexists; split; [reflexivity|].
+  change (rhp_facets v h r s t) with
+    ([plane_end v r; plane_opposite v r] ++ [plane_end v s; plane_opposite v s] ++
+     [plane_end v t; plane_opposite v t] ++ [plane_end v h; plane_begin v h]).
+  apply Forall2_app3; try apply rhp_pair_ok. apply end_planes_ok.
+Qed.
+
+(* nine entries: regular prism, s and t are r turned by 60 and 120 degrees
+   about h *)
+Lemma renorm_ok (h : pt) :
+  h <> (0, 0, 0) -> renorm RS h = Ok (vmul (1 / norm h) h).
+Proof.
+  intros Hh. unfold renorm, renorm_to, divr. tospec.
+  pose proof (norm_pos h Hh) as Hn.
+  destruct (Reqb (norm h) 0) eqn:E; [apply Reqb_true in E; lra|]. reflexivity.
+Qed.
+
+Lemma rotate_turn (h r : pt) (th : R) :
+  h <> (0, 0, 0) -> dot r h = 0 ->
+  rotate RS r (vmul (1 / norm h) h) th = turn h r (cos th) (sin th).
+Proof.
+  intros Hh Hr. pose proof (norm_pos h Hh) as Hn.
+  unfold rotate, turn. tospec. rewrite dot_vmul_l, (dot_comm h r), Hr.
+  destruct h as [[h1 h2] h3], r as [[r1 r2] r3].
+  set (n := norm (h1, h2, h3)) in *. unfold rescale, vadd, vmul, cross. rs. cbv beta iota zeta.
+  apply pair3; field; lra.
+Qed.
+
+Theorem rhp9_facets_ok (v h r : pt) :
+  h <> (0, 0, 0) -> dot r h = 0 ->
+  exists es, rhp RS (pl v ++ pl h ++ pl r) = Ok es /\
+             Forall2 same_facet es (rhp_regular_facets v h r).
+Proof.
+  intros Hh Hr. open_body @rhp. rewrite (pl_nil r), v3_at0, v3_at3, v3_at6.
+  rewrite (renorm_ok h Hh). cbn [bind]. rewrite !rotate_turn by assumption. rs.
+  replace (IZR 2 * PI / IZR 3) with (2 * (PI / 3)) by (simpl; field).
+  change (PI / IZR 3) with (PI / 3).
+  rewrite cos_PI3, sin_PI3, cos_2PI3, sin_2PI3.
+  eexists; split; [reflexivity|]. unfold rhp_regular_facets.
+  set (s := turn h r (1 / 2) (sqrt 3 / 2)). set (t := turn h r (-1 / 2) (sqrt 3 / 2)).
+  change (rhp_facets v h r s t) with
+    ([plane_end v r; plane_opposite v r] ++ [plane_end v s; plane_opposite v s] ++
+     [plane_end v t; plane_opposite v t] ++ [plane_end v h; plane_begin v h]).
+  apply Forall2_app3; try apply rhp_pair_ok. apply end_planes_ok.
+Qed.
+
+(* the regular prism really is regular: s and t have the length of r, are
+   normal to h, and make 60 and 120 degrees with r *)
+Lemma turn_regular (h r : pt) (c s : R) :
+  h <> (0, 0, 0) -> dot r h = 0 -> c * c + s * s = 1 ->
+  norm2 (turn h r c s) = norm2 r /\ dot (turn h r c s) h = 0 /\
+  dot (turn h r c s) r = c * norm2 r.
+Proof.
+  intros Hh Hr Hcs. pose proof (norm_pos h Hh) as Hn. pose proof (norm_sqr h) as Hs.
+  unfold turn.
+  assert (X : norm2 (cross h r) = norm2 h * norm2 r).
+  { assert (L : norm2 (cross h r) = norm2 h * norm2 r - dot r h * dot r h).
+    { clear. destruct h as [[h1 h2] h3], r as [[r1 r2] r3]. unfold norm2, dot, cross. ring. }
+    rewrite L, Hr. ring. }
+  assert (Y : dot (cross h r) h = 0 /\ dot (cross h r) r = 0).
+  { clear. destruct h as [[h1 h2] h3], r as [[r1 r2] r3]. unfold dot, cross. split; ring. }
+  destruct Y as [Y1 Y2].
+  repeat split.
+  - unfold norm2 at 1. rewrite dot_vadd_l, !dot_vadd_r, !dot_vmul_l, !dot_vmul_r.
+    rewrite (dot_comm r (cross h r)), Y2. fold (norm2 r) (norm2 (cross h r)). rewrite X, <- Hs.
+    field_simplify; [|lra]. replace (s ^ 2) with (1 - c * c) by lra. field. lra.
+  - rewrite dot_vadd_l, !dot_vmul_l, Hr, Y1. ring.
+  - rewrite dot_vadd_l, !dot_vmul_l, Y2. unfold norm2. ring.
+Qed.
+
+(* ---------------- WED ---------------- *)
+Definition wed_admissible (a b h : pt) : Prop :=
+  dot a b = 0 /\ dot a h = 0 /\ dot b h = 0 /\ det a b h <> 0.
+
+Lemma cross_vsub_dot (a b h q : pt) :
+  dot (cross (vsub a b) h) q = dot (cross a h) q - dot (cross b h) q.
+Proof.
+  destruct a as [[a1 a2] a3], b as [[b1 b2] b3], h as [[h1 h2] h3], q as [[q1 q2] q3].
+  unfold dot, cross, vsub. ring.
+Qed.
+
+Lemma wed_norms (a b h : pt) :
+  wed_admissible a b h -> 0 < norm2 a /\ 0 < norm2 b /\ 0 < norm2 h.
+Proof.
+  intros (_ & _ & _ & HD). repeat split; apply norm2_pos.
+  - now apply (det_nonzero_l a b h).
+  - apply (det_nonzero_l b h a). now rewrite <- det_cyc.
+  - apply (det_nonzero_l h a b). now rewrite <- 2 det_cyc.
+Qed.
+
+(* the slant normal (a - b) x h in the orthogonal frame *)
+Lemma wed_slant_normal (a b h q : pt) :
+  wed_admissible a b h ->
+  dot (cross (vsub a b) h) q = - det a b h * (dot a q / norm2 a + dot b q / norm2 b).
+Proof.
+  intros Adm. destruct (wed_norms a b h Adm) as (Na & Nb & Nh).
+  destruct Adm as (Hab & Hah & Hbh & HD).
+  assert (Hba : dot b a = 0) by now rewrite dot_comm.
+  pose proof (cross_parallel b a h q Hba Hbh) as E1.
+  pose proof (cross_parallel a b h q Hab Hah) as E2.
+  rewrite (det_swap b a h) in E1. rewrite cross_vsub_dot.
+  set (D := det a b h) in *.
+  assert (X1 : dot (cross a h) q = - D * dot b q / norm2 b) by (field_simplify_eq; lra).
+  assert (X2 : dot (cross b h) q = D * dot a q / norm2 a) by (field_simplify_eq; lra).
+  rewrite X1, X2. field. lra.
+Qed.
+
+Theorem wed_facets_ok (v a b h : pt) :
+  wed_admissible a b h ->
+  exists es, wed RS (pl v ++ pl a ++ pl b ++ pl h) = Ok es /\
+             Forall2 same_facet es (wed_facets v a b h).
+Proof.
+  intros Adm. destruct (wed_norms a b h Adm) as (Na & Nb & Nh).
+  pose proof (wed_slant_normal a b h) as SN.
+  destruct Adm as (Hab & Hah & Hbh & HD).
+  assert (Adm : wed_admissible a b h) by (repeat split; assumption).
+  open_body @wed. rewrite (pl_nil h), v3_at0, v3_at3, v3_at6, v3_at9. tospec.
+  eexists; split; [reflexivity|]. unfold wed_facets.
+  set (c := cross (vsub a b) h) in *. set (D := det a b h) in *.
+  assert (Hac : dot a c = - D).
+  { rewrite dot_comm. unfold c. rewrite SN by assumption. rewrite (dot_comm b a), Hab.
+    fold (norm2 a). field. lra. }
+  change [wed_slant v a b; plane_begin v a; plane_begin v b; plane_end v h; plane_begin v h]
+    with ([wed_slant v a b; plane_begin v a; plane_begin v b] ++ [plane_end v h; plane_begin v h]).
+  apply Forall2_app; [|apply end_planes_ok].
+  constructor; [|constructor; [|constructor; [|constructor]]].
+  - apply same_facet_plane with (c := Rabs D); [now apply Rabs_pos_lt|]. intros p.
+    assert (L : dot c p - dot c (vadd v a) = dot c (vsub (vsub p v) a)).
+    { rewrite !dot_vsub_r, dot_vadd_r. ring. }
+    rewrite L. unfold c at 2. rewrite SN by assumption. fold D.
+    rewrite !(dot_vsub_r a), !(dot_vsub_r b), (dot_comm b a), Hab. fold (norm2 a).
+    unfold wed_slant. rewrite (dot_comm (vsub p v) a), (dot_comm (vsub p v) b), !dot_vsub_r.
+    rewrite Hac. destruct (Rltb_case 0 (- D)) as [[Lt ->]|[Lt ->]].
+    + rewrite Rabs_left by lra. cbn [IZR IPR]. field. lra.
+    + rewrite Rabs_right by lra. cbn [IZR IPR]. field. lra.
+  - apply same_facet_plane with (c := 1); [lra|]. intros p. unfold plane_begin.
+    rewrite dot_vadd_r, Hab, dot_vsub_l, (dot_comm p a), (dot_comm v a). cbn [IZR IPR]. ring.
+  - apply same_facet_plane with (c := 1); [lra|]. intros p. unfold plane_begin.
+    rewrite dot_vadd_r, (dot_comm b a), Hab, dot_vsub_l, (dot_comm p b), (dot_comm v b).
+    cbn [IZR IPR]. ring.
+Qed.
+
+(* the solid: v + s a + t b + u h, s, t > 0, s + t < 1, 0 < u < 1 *)
+Lemma wed_inside_facets (v a b h p : pt) :
+  wed_admissible a b h ->
+  (wed_inside v a b h p <-> inside_of (wed_facets v a b h) p).
+Proof.
+  intros Adm. destruct (wed_norms a b h Adm) as (Na & Nb & Nh).
+  destruct Adm as (Hab & Hah & Hbh & HD).
+  assert (Hba : dot b a = 0) by now rewrite dot_comm.
+  assert (Hha : dot h a = 0) by now rewrite dot_comm.
+  assert (Hhb : dot h b = 0) by now rewrite dot_comm.
+  unfold inside_of, wed_facets, wed_slant, plane_end, plane_begin. split.
+  - intros (s & t & u & Hs & Ht & Hst & Hu & ->).
+    assert (E : forall w, dot (vsub (vadd v (vadd (vmul s a) (vadd (vmul t b) (vmul u h)))) v) w
+                          = s * dot a w + t * dot b w + u * dot h w).
+    { intros w. rewrite dot_vsub_l, !dot_vadd_l, !dot_vmul_l. ring. }
+    repeat (apply Forall_cons); [ .. | apply Forall_nil]; cbv beta;
+      rewrite ?(dot_vsub_l _ h h), !E; rewrite ?Hab, ?Hah, ?Hbh, ?Hba, ?Hha, ?Hhb;
+      fold (norm2 a) (norm2 b) (norm2 h).
+    + replace ((s * norm2 a + t * 0 + u * 0) / norm2 a + (s * 0 + t * norm2 b + u * 0) / norm2 b - 1)
+        with (s + t - 1) by (field; lra). lra.
+    + nra.
+    + nra.
+    + nra.
+    + nra.
+  - intros H. repeat match goal with H : Forall _ (_ :: _) |- _ => inversion_clear H end.
+    set (q := vsub p v) in *.
+    rewrite (dot_vsub_l q h h) in *. fold (norm2 h) in *.
+    exists (dot q a / norm2 a), (dot q b / norm2 b), (dot q h / norm2 h).
+    assert (Pos : forall x n, 0 < n -> - x < 0 -> 0 < x / n).
+    { intros x n Hn Hx. apply Rdiv_lt_0_compat; lra. }
+    split; [now apply Pos|]. split; [now apply Pos|]. split; [lra|]. split.
+    + split; [now apply Pos|].
+      apply (Rmult_lt_reg_r (norm2 h)); [lra|]. unfold Rdiv. rewrite Rmult_assoc, Rinv_l; lra.
+    + pose proof (ortho_decompose a b h q Hab Hah Hbh HD) as E.
+      rewrite <- E. subst q. destruct p as [[p1 p2] p3], v as [[v1 v2] v3].
+      unfold vadd, vsub. apply pair3; ring.
+Qed.
